@@ -112,6 +112,44 @@ def check(repo: Repo, run: Run) -> None:
         "matching logical function with the matching neutral element. T5: no interpreter rule method lets a CELEvalError "
         "propagate as a raised exception (local effect analysis). Not enumerated: the kinds of failing sub-expressions (C04)."
     )
+    # T9: BoolType(x) of something that is not a number or a recognised text must fail (int's constructor raises
+    # TypeError): the compiled all/exists helpers wrap the outcome of their fold in BoolType(...), and an error value
+    # that reaches it has to stay an error.  `bool(source)` / a truthiness test in the generic arm turns every error
+    # object into true.
+    from ..core.paths import flat_conds as _fc9, paths_of as _po9
+
+    ct9 = repo.mod("celtypes")
+    bcls = ct9.cls("BoolType")
+    bnew = class_methods(bcls).get("__new__")
+    if bnew is None or len(bnew.args.args) < 2:
+        run.inconclusive("C02.T9", "BoolType.__new__", "constructor not found")
+    else:
+        src9 = bnew.args.args[1].arg
+        bad9 = None
+        n9 = 0
+        try:
+            bpaths = [p for p in _po9(ct9, bcls, bnew) if p.kind == "return" and p.value is not None]
+        except OverflowError:
+            bpaths = []
+        for p in bpaths:
+            v = strip_cast(p.value)
+            if not (isinstance(v, ast.Call) and isinstance(v.func, ast.Attribute) and v.func.attr == "__new__" and len(v.args) >= 2):
+                continue
+            n9 += 1
+            typed = any(pol and isinstance(t, ast.Call) and dotted(t.func) == "isinstance" and ast.unparse(strip_cast(t.args[0])) == src9 for t, pol in _fc9(p.conds))
+            arg = strip_cast(v.args[1])
+            coerces = (isinstance(arg, ast.Call) and dotted(arg.func) == "bool" and arg.args and ast.unparse(strip_cast(arg.args[0])) == src9) or \
+                      (isinstance(arg, ast.IfExp) and ast.unparse(strip_cast(arg.test)) == src9) or \
+                      (isinstance(arg, ast.UnaryOp) and isinstance(arg.op, ast.Not))
+            if coerces and not typed:
+                bad9 = (ast.unparse(arg), p)
+        if n9 == 0:
+            run.inconclusive("C02.T9", "BoolType.__new__", "no constructing path found")
+        else:
+            run.ob("C02.T9", "BoolType.__new__|generic arm", bad9 is None,
+                   "BoolType(x) leaves the conversion of an unrecognised source to int's constructor (TypeError for non-numbers)" if bad9 is None else
+                   f"BoolType.__new__ builds the value from `{bad9[0]}` for any source: an error object is truthy, so BoolType(<error>) is true and the compiled all()/exists() return true where the fold ended in an error",
+                   ct9.loc(bad9[1].node) if bad9 is not None and bad9[1].node is not None else ct9.loc(bnew))
     # T8: in compiled code every operand of &&, ||, ?: and every macro element is produced by result(); an exception
     # that result() lets through (or that makes its message lookup fail) is never seen by the absorbing operator
     # (instances shared with C03.X2)
